@@ -344,6 +344,57 @@ def r6(cx):
                          "during a split a plain SELECT returns every double-written row twice" % b.sp(pb), [b.sp(pb)])
 
 
+@rule("C15", "R7", "whether to de-duplicate is decided by the split state alone: the test in front of dedup_batches derives from has_active_split() of this request and from nothing else - "
+      "not from the number of selected chunks or any other shortcut (a compaction during the split merges a row and its double-written copy into ONE chunk)")
+def r7(cx):
+    n = 0
+    for k, c in cx.prog.sites(lambda c: c == DEDUP):
+        b = cx.body(k)
+        if b is None:
+            continue
+        n += 1
+        d = c["b"]
+        guards = []
+        for sw in M.bool_switches(b):
+            if b.dominated_by_edges(d, {sw["true_edge"]}) or b.dominated_by_edges(d, {sw["false_edge"]}):
+                r = sw["root"]
+                if r is None:
+                    continue
+                guards.append((sw, r))
+        rel = []
+        for sw, r in guards:
+            o = set()
+            if r[2] == "call":
+                o = {("call", (r[0], r[3]["callee"]), "")}
+                for a in r[3]["args"]:
+                    o |= M.operand_origins(b, a, at=(r[0], M.T))
+            elif r[2] == "assign":
+                rv = r[3]["rv"]
+                for key in ("o", "a", "b"):
+                    if isinstance(rv.get(key), dict):
+                        o |= M.operand_origins(b, rv[key], at=(r[0], r[1]))
+                if rv["k"] == "bin":
+                    o.add(("bin", (r[0], r[1], rv["op"]), ""))
+            if M.has_call(o, lambda cc: cc.endswith("MetadataClient::has_active_split")) or any(x[0] == "bin" for x in o) or M.has_call(o, lambda cc: cc.endswith("::len") or cc.endswith("is_empty")):
+                rel.append((sw, o))
+        if not rel:
+            cx.violation(k, "dedup-decided-by-split-state-alone", "%s: no test on has_active_split() guards the de-duplication" % c["sp"], [c["sp"]])
+            continue
+        bad = []
+        for sw, o in rel:
+            other = sorted({x[1][1] for x in o if x[0] == "call" and not x[1][1].endswith("has_active_split") and (x[1][1].endswith("::len") or x[1][1].endswith("is_empty") or x[1][1] in cx.prog.calls)})
+            bins = sorted({str(x[1][2]) for x in o if x[0] == "bin"})
+            if other or bins:
+                bad.append((sw, other, bins))
+        if bad:
+            sw, other, bins = bad[0]
+            cx.violation(k, "dedup-decided-by-split-state-alone", "%s: the de-duplication also depends on %s: a request on which that shortcut says 'no duplicates possible' is not de-duplicated although "
+                         "a split is in its dual-write / back-fill phase" % (b.sp(sw["block"]), other or bins), [b.sp(sw["block"]), c["sp"]])
+        else:
+            cx.passed(k, "dedup-decided-by-split-state-alone", [c["sp"]])
+    cx.floor("dedup_batches call sites", n, 1)
+
+
 @rule("C15", "R3", "de-duplication runs on stored rows, not on the statement's results (after aggregation it cannot undo double counting)")
 def r3(cx):
     for k, c in cx.prog.sites(lambda c: c == "query::dedup::dedup_batches"):
